@@ -126,8 +126,9 @@ def check_case(case, opts):
             ks = list(range(1, na + 1))
             alimit = opts.get("alloc_limit", 150)
             if len(ks) > alimit:
+                # evenly spread, plus all of the first and the last 40: table growth and the finishing steps cluster at both ends
                 step = len(ks) / float(alimit)
-                ks = sorted(set(ks[int(i * step)] for i in range(alimit)) | {1, na})
+                ks = sorted(set(ks[int(i * step)] for i in range(alimit)) | set(range(1, min(na, 40) + 1)) | set(range(max(1, na - 40), na + 1)))
             else:
                 classes.append("alloc_exhaustive")
             for k in ks:
